@@ -10,11 +10,12 @@ from decimal import Decimal
 from fractions import Fraction
 
 from ..core import Outcome
-from ..engine import call, xselect, type_label
+from ..engine import call, xselect, type_label, PARSERS
 from ..models import numeric as M
 from ..models.numeric import Num
 
 from elementpath.datatypes import Float
+from elementpath import XPathContext
 
 PROPERTY = 'C06'
 LEVEL = 'exploration'
@@ -666,8 +667,65 @@ def check_law(case, out):
              {'expr': expr, 'version': ver, 'expected': expect_text(exp), 'got': got})
 
 
+def check_reuse(case, out):
+    """one parsed expression over variables, evaluated with several bindings in turn (a `for` body, a path step, a
+    reused Selector): every evaluation must give what a fresh parse gives for the same bindings (the values
+    themselves are judged by the other kinds)"""
+    ver, expr, sets = case['v'], case['expr'], case['sets']
+    out.dim('reuse_expression', expr.split('(')[0] if '(' in expr else expr.split()[1])
+
+    def bindings(b):
+        return {k: (v if isinstance(v, int) else py_value(v[0], v[1])) for k, v in b.items()}
+    fresh = [call(xselect, expr, ver, root=None, item=1, variables=bindings(b)) for b in sets]
+
+    def reused():
+        tok = PARSERS[ver]().parse(expr)
+        return [call(tok.evaluate, XPathContext(root=None, item=1, variables=bindings(b))) for b in sets]
+    o = call(reused)
+    out.nontrivial = any(f[0] == 'ok' for f in fresh)
+    out.obs = '%s [%s] x %d bindings' % (expr, ver, len(sets))
+    if o[0] != 'ok':
+        out.fail('C06/reused-expression/raised', {'expr': expr, 'version': ver, 'got': list(o)})
+        return
+    for k, (a, b) in enumerate(zip(fresh, o[1])):
+        out.dim('reuse_evaluations', 'first' if k == 0 else 'later')
+        if not same_outcome(a, b):
+            out.fail('C06/reused-expression/differs-from-fresh-parse/%s' % out.dims[0][1],
+                     {'expr': expr, 'version': ver, 'bindings': sets, 'evaluation': k, 'fresh': short(a), 'reused': short(b)})
+            return
+
+
+def g_reuse_case(r):
+    ver = r.choice(['2.0', '3.0', '3.1', '3.1'])
+    x = r.random()
+    if x < 0.45:
+        fn = r.choice(['round', 'round-half-to-even'])
+        p = r.choice([0, 1, 2, 2, -1, -2, 3])
+        expr = '%s($a, $p)' % fn if (fn != 'round' or ver != '2.0') else 'round($a)'
+        # short values first, then values whose digits exceed the default decimal precision
+        big = '%d.%s' % (r.randint(10 ** 29, 10 ** 30), r.choice(['125', '5', '375', '45']))
+        sets = [{'a': rand_operand(r), 'p': p}, {'a': ['decimal', r.choice(['2.125', '0.5', '-2.5', '1.005'])], 'p': p},
+                {'a': ['decimal', big], 'p': p}, {'a': ['integer', str(r.randint(10 ** 29, 10 ** 31))], 'p': -abs(p) - 1},
+                {'a': rand_operand(r), 'p': p}]
+        r.shuffle(sets)
+        if '$p' not in expr:
+            sets = [{'a': b['a']} for b in sets]
+    elif x < 0.7:
+        fn = r.choice(['abs', 'floor', 'ceiling', 'round', '-', '+'])
+        expr = '%s($a)' % fn
+        sets = [{'a': rand_operand(r)} for _ in range(4)]
+    else:
+        op = r.choice(BINOPS)
+        expr = '$a %s $b' % op
+        sets = [{'a': rand_operand(r), 'b': rand_operand(r)} for _ in range(4)]
+    return {'v': ver, 'expr': expr, 'sets': sets}
+
+
 def check_case(kind, case):
     out = Outcome()
+    if kind == 'reuse':
+        check_reuse(case, out)
+        return out
     if kind == 'binop':
         check_binop(case, out)
     elif kind == 'unary':
@@ -685,6 +743,12 @@ SIMPLE = {'integer': ['1', '2', '-1', '3', '-3'], 'decimal': ['1.0', '0.5', '-0.
 
 
 def shrink(kind, case):
+    if kind == 'reuse':
+        sets = case['sets']
+        for i in range(len(sets)):
+            if len(sets) > 2:
+                yield dict(case, sets=sets[:i] + sets[i + 1:])
+        return
     if case.get('fp') in ('var', 'ctor'):
         yield dict(case, fp='lit')
     for f in ('fa', 'fb'):
@@ -847,10 +911,14 @@ def run(h):
         ver = pick_version(r)
         h.case('law', {'v': ver, 'a': a, 'b': b, 'fa': pick_form(r, ver, a[0], a[1], False),
                        'fb': pick_form(r, ver, b[0], b[1], False)})
+    for _ in range(h.n(400)):
+        h.case('reuse', g_reuse_case(r))
 
 
 def floors(v):
     reasons = []
+    if v.got('reuse_evaluations', 'later') < 500:
+        reasons.append('fewer than 500 later evaluations of a reused expression')
     if v.got('comparisons', 'model-vs-engine') < 20000:
         reasons.append('fewer than 20000 model-vs-engine comparisons')
     for op in BINOPS:
